@@ -240,7 +240,7 @@ theorem lexAttr_stable : LxStable lexAttr := by
   | cons c r =>
     by_cases hc : c = '@'
     · subst hc
-      simp only [lexAttr, List.cons_append, ↓reduceIte]
+      simp only [lexAttr, lexName, List.cons_append, ↓reduceIte]
       cases hs : lexStr r with
       | inc => stab
       | ok nm r' =>
@@ -1020,22 +1020,7 @@ theorem exponent_ext {r : List Char} (h : expInc r = false) (q : List Char) :
         simp only [List.cons_append] at h ⊢
         have hsp := stripPlusMinus_append (p := s :: r'') (by simp) q
         simp only [List.cons_append] at hsp
-        have hr3 : (if s = '+' ∨ s = '-' then r'' else s :: r'') = (stripPlusMinus (s :: r'')).2 := by
-          by_cases h1 : s = '-'
-          · subst h1; simp [stripPlusMinus]
-          · by_cases h2 : s = '+'
-            · subst h2; simp [stripPlusMinus]
-            · have : stripPlusMinus (s :: r'') = (false, s :: r'') := by
-                unfold stripPlusMinus
-                split
-                · rename_i heq; simp only [List.cons.injEq] at heq; exact absurd heq.1 h1
-                · rename_i heq; simp only [List.cons.injEq] at heq; exact absurd heq.1 h2
-                · rfl
-              simp [this, h1, h2]
-        have hr3' : (if s = '+' ∨ s = '-' then r'' ++ q else s :: (r'' ++ q)) = (stripPlusMinus (s :: r'')).2 ++ q := by
-          rw [← hr3]; split <;> simp
-        rw [hr3] at h
-        rw [hr3', hsp]
+        rw [hsp]
         simp only
         generalize (stripPlusMinus (s :: r'')).2 = r3 at h ⊢
         generalize (stripPlusMinus (s :: r'')).1 = en
@@ -1053,42 +1038,7 @@ theorem exponent_ext {r : List Char} (h : expInc r = false) (q : List Char) :
       simp
 
 
-/-- `fltInc` after the sign. -/
-def fltIncBody (r : List Char) : Bool :=
-  match r with
-  | [] => true
-  | _ :: _ =>
-    match r.takeWhile isDigit, r.dropWhile isDigit with
-    | _ :: _, [] => true
-    | _ :: _, '.' :: r2 => if (r2.dropWhile isDigit).isEmpty then true else expInc (r2.dropWhile isDigit)
-    | _ :: _, x :: r1 => expInc (x :: r1)
-    | [], _ =>
-      match r with
-      | '.' :: r2 =>
-        (match r2.takeWhile isDigit, r2.dropWhile isDigit with
-         | _, [] => true
-         | [], _ :: _ => false
-         | _ :: _, x :: r3 => expInc (x :: r3))
-      | _ => false
-
-theorem fltInc_eq (inp : List Char) : fltInc inp = fltIncBody (stripPlusMinus inp).2 := by
-  cases inp with
-  | nil => rfl
-  | cons c r =>
-    by_cases h1 : c = '-'
-    · subst h1; rfl
-    · by_cases h2 : c = '+'
-      · subst h2; rfl
-      · have e1 : stripPlusMinus (c :: r) = (false, c :: r) := by
-          unfold stripPlusMinus
-          split
-          · rename_i heq; simp only [List.cons.injEq] at heq; exact absurd heq.1 h1
-          · rename_i heq; simp only [List.cons.injEq] at heq; exact absurd heq.1 h2
-          · rfl
-        rw [e1]
-        unfold fltInc fltIncBody
-        simp [h1, h2]
-        rfl
+theorem fltInc_eq (inp : List Char) : fltInc inp = fltIncBody (stripPlusMinus inp).2 := rfl
 
 theorem map_lexExponent {r q : List Char} {neg : Bool} {I Fr : List Char}
     (h : lexExponent (r ++ q) = (lexExponent r).map (fun t => (t.1, t.2.1, t.2.2 ++ q))) :
@@ -1196,7 +1146,7 @@ theorem lexFloatM_stable : LxStable (lexFloatM true) := by
   by_cases hinc : fltInc p = true
   · simp only [hinc, Bool.and_self, ↓reduceIte]; stab
   · have hinc' : fltInc p = false := by simpa using hinc
-    have hp : p ≠ [] := by intro h; subst h; simp [fltInc] at hinc'
+    have hp : p ≠ [] := by intro h; subst h; simp [fltInc, fltIncBody, stripPlusMinus] at hinc'
     rw [fltInc_eq] at hinc'
     obtain ⟨b1, b2⟩ := floatBody_ext (stripPlusMinus p).1 hinc' q
     have hsp := stripPlusMinus_append hp q
